@@ -421,7 +421,7 @@ mut("C11", "handshake-without-deadline", "pkg/proxyserver/proxyserver.go",
 mut("C11", "h1-done-never-fires", "pkg/hack/tls_clienthello_conn.go",
     "	c.Done()\n	return c.Conn.Close()", "	return c.Conn.Close()")
 mut("C11", "conn-not-closed-on-handshake-failure", "pkg/proxyserver/proxyserver.go",
-    "	defer recover()\n	defer conn.Close()\n", "	defer recover()\n")
+    "	defer server.recoverPanic(conn)\n	defer conn.Close()\n", "	defer server.recoverPanic(conn)\n")
 mut("C11", "conn-not-closed-on-handshake-failure", "pkg/proxyserver/proxyserver.go",
     "	tlsConn := tls.Server(hijackedConn, server.TLSConfig)\n	defer tlsConn.Close()\n", "	tlsConn := tls.Server(hijackedConn, server.TLSConfig)\n	closeTLS := true\n	defer func() {\n		if closeTLS {\n			tlsConn.Close()\n		}\n	}()\n")
 mut("C11", "conn-not-closed-on-handshake-failure", "pkg/proxyserver/proxyserver.go",
